@@ -402,6 +402,7 @@ def finite_alphabet(A="A", L="L"):
         WSH,
         IVR,
         WSH2,
+        lsb(lsb(IR01, 1, 1), 1, 2),  # a size-refined list of size-refined lists
     ]
 
 
@@ -765,6 +766,19 @@ def family_shapes():
             "start": "A",
         },
     )
+    # S26 concrete recursive start symbol with a list of another (abstract) type that leads back to it
+    out.append(
+        {
+            "name": "S26:concrete-rec-list",
+            "abstract": [["N", None, "ABC"]],
+            "prods": [
+                ["Leaf", "N", None, [["v", IR01]]],
+                ["T", None, None, [["v", IR01], ["kids", lsb(ref("N"), 0, 2)]]],
+                ["Wrap", "N", None, [["t", ref("T")]]],
+            ],
+            "start": "T",
+        },
+    )
     # S16 union of two abstract types of different minimum depth
     out.append(
         {
@@ -834,7 +848,7 @@ def finite_family(tier: str):
     fa = finite_alphabet()
     out = list(family_one_abstract(fa, 1 if tier == "quick" else 2, "F1"))
     out += [s for s in family_shapes() if s["name"].split(":")[0] in
-            ("S1", "S2", "S3", "S4", "S5", "S6", "S7", "S8", "S9", "S10", "S12", "S13", "S14", "S15", "S16", "S17", "S18", "S19", "S20", "S22", "S23", "S24")]
+            ("S1", "S2", "S3", "S4", "S5", "S6", "S7", "S8", "S9", "S10", "S12", "S13", "S14", "S15", "S16", "S17", "S18", "S19", "S20", "S22", "S23", "S24", "S26")]
     out += list(family_two_abstract(finite_alphabet, "F2"))
     out += list(family_nested(finite_alphabet, "F3"))
     return out
@@ -868,3 +882,63 @@ def general_family(tier: str):
     out += [s for s in family_shapes() if s["name"].startswith(("S11", "S21"))]
     out += list(family_two_abstract(infinite_alphabet, "G3"))
     return out
+
+
+# ---------------------------------------------------------------------------------------
+# named grammars that need hand-written refinements (not expressible as a spec)
+
+CONTEXT_SPEC = {
+    "name": "N:context", "named": "context", "start": "Expr",
+    "abstract": [["Expr", None, "ABC"]],
+    "prods": [["Literal", "Expr", None, [["v", ["ann", "int", ["IntRange", 0, 3]]]]], ["Let", "Expr", None, []], ["Var", "Expr", None, []]],
+}
+
+
+def build_named(spec) -> Bundle:
+    """The dependent-types context grammar of tests/representations/dependent_types_context_test.py, re-declared:
+    a context (list of names) is threaded through the tree by dependent refinements, `ctx + [name]` is injected
+    into the body through rec(base_type, initial_values=...), and Var is infeasible under an empty context."""
+    assert spec["named"] == "context"
+    from geneticengine.grammar.metahandlers.base import MetaHandlerGenerator
+    from geneticengine.solutions.tree import GengyList
+
+    modname = f"verif_grammar_{next(_counter)}"
+    mod = types.ModuleType(modname)
+    sys.modules[modname] = mod
+
+    class AnyContext(MetaHandlerGenerator):
+        def generate(self, random, grammar, base_type, rec, dependent_values):
+            return GengyList(str, [])
+
+        def validate(self, v) -> bool:
+            return True
+
+    class ContextMH(MetaHandlerGenerator):
+        def __init__(self, ctx):
+            self.ctx = ctx
+
+        def generate(self, random, grammar, base_type, rec, dependent_values):
+            return rec(base_type, initial_values={"ctx": self.ctx})
+
+        def validate(self, v) -> bool:
+            return True
+
+    Expr = ABCMeta("Expr", (ABC,), {"__module__": modname, "__qualname__": "Expr"})
+    Literal = dataclass(ABCMeta("Literal", (Expr,), {"__module__": modname, "__qualname__": "Literal",
+                                                     "__annotations__": {"v": Annotated[int, IntRange(0, 3)]}}))
+    Let = ABCMeta("Let", (Expr,), {"__module__": modname, "__qualname__": "Let"})
+    Let.__annotations__ = {
+        "ctx": Annotated[list[str], AnyContext()],
+        "name": Annotated[str, VarRange(["a", "b"])],
+        "body": Annotated[Expr, Dependent("ctx,name", lambda ctx, name: ContextMH(ctx + [name]))],
+    }
+    Let = dataclass(Let)
+    Var = ABCMeta("Var", (Expr,), {"__module__": modname, "__qualname__": "Var"})
+    Var.__annotations__ = {
+        "ctx": Annotated[list[str], AnyContext()],
+        "name": Annotated[str, Dependent("ctx", lambda ctx: VarRange(ctx))],
+    }
+    Var = dataclass(Var)
+    classes = {"Expr": Expr, "Literal": Literal, "Let": Let, "Var": Var}
+    mod.__dict__.update(classes)
+    return Bundle(spec, classes, mod, Expr, [Let, Var, Literal])
